@@ -512,6 +512,9 @@ func c19Prepare(c *runner.Ctx, write bool) (path string, x *model.XSeg, others [
 	} else {
 		w, werr := gen.GenWorld(r, c.TmpDir, fmt.Sprintf("w%d", c.Idx), gen.WorldOpts{MinDocs: 2, MaxDocs: c19MaxDocs(c), NoFile: true})
 		if werr != nil {
+			if w != nil {
+				w.Close()
+			}
 			return "", nil, nil, closer, werr
 		}
 		closer = w.Close
